@@ -35,6 +35,7 @@ func RunClone(s *Scen, r *vk.Rand, a, b int, bin, base string) {
 		return
 	}
 	s.Cl = src
+	s.Others = []*Cluster{dst}
 	defer src.Stop()
 	for _, p := range src.Reps {
 		src.StartRep(p)
@@ -150,6 +151,9 @@ func RunClone(s *Scen, r *vk.Rand, a, b int, bin, base string) {
 	if kind == "missing-snapshot" {
 		end = time.Now().Add(25 * time.Second)
 	}
+	if kind == "kill-clone" {
+		end = time.Now().Add(90 * time.Second)
+	}
 	for time.Now().Before(end) {
 		if dst.C.TryLock() {
 			dst.C.Unlock()
@@ -194,6 +198,15 @@ func RunClone(s *Scen, r *vk.Rand, a, b int, bin, base string) {
 			s.Fail([]string{"C19"}, "failed-clone-served", fmt.Sprintf("the snapshot to clone does not exist at the source, yet the clone reports status %q and the new controller lists it RW=%v", st, done))
 		}
 		return
+	}
+	if !done && kind == "kill-clone" {
+		// When the clone dies after the new controller attached it, the controller keeps polling the clone status
+		// (holding its lock) and the restarted process waits to be attached again: the volume never comes up.
+		// Nothing is served, so this is not a violation of the statement; it is recorded.
+		if ri, err := GetRep(cp.IP); err == nil && ri.ReplicaMode != "RW" && ri.CloneStatus != "completed" {
+			s.Res.Count("clones_stuck_after_clone_restart", 1)
+			return
+		}
 	}
 	if !done {
 		// a failed clone is allowed: then it must be reported as an error and serve nothing
